@@ -99,7 +99,7 @@ package deflate
 //@ pure dynShape(c *dynCompressor) bool = (c.windowSize == 4096 || c.windowSize == 32768) && len(c.buffer) == 2*c.windowSize+261 && cap(c.tokens) >= 32768 && len(c.buf.output) == 8192 && c.hdr != nil && c.litGen != nil && c.distGen != nil && lzShape(c.lz77, c.windowSize) && histAlias(c)
 // dynOK: representation invariant between public operations (no sticky error).
 //@ pure dynPos(c *dynCompressor) bool = (typeis(c.lz77, *level1context) ==> posInv(c.lz77.(*level1context).table[:], c.windowSize, c.processed - c.idx, c.idx, 0)) && (typeis(c.lz77, *level2context) ==> posInv(c.lz77.(*level2context).table[:], c.windowSize, c.processed - c.idx, c.idx, 0))
-//@ pure dynOK(c *dynCompressor) bool = dynShape(c) && dynPos(c) && tokensOK(c.tokens) && c.w != nil && 0 <= c.idx && c.idx <= c.end && c.end <= 2*c.windowSize+258 && len(c.tokens) < 32767 && bufOK(&c.buf) && c.buf.idx == 0
+//@ pure dynOK(c *dynCompressor) bool = dynShape(c) && dynPos(c) && tokensOK(c.tokens) && c.w != nil && !dstFailed(c.w) && 0 <= c.idx && c.idx <= c.end && c.end <= 2*c.windowSize+258 && len(c.tokens) < 32767 && bufOK(&c.buf) && c.buf.idx == 0
 // dynFresh: the state NewDynCompressor establishes and Reset must re-establish.
 //@ pure dynFresh(c *dynCompressor) bool = dynOK(c) && c.idx == 0 && c.end == 0 && c.processed == 0 && len(c.tokens) == 0 && bufZero(&c.buf) && lzZero(c.lz77)
 
@@ -110,13 +110,13 @@ package deflate
 //@   ensures[C01 dispatch] (level == 1) == typeis(result, *level1context)
 
 //@ func NewDynCompressor
-//@   requires w != nil && (windowSize == 4096 || windowSize == 32768)
+//@   requires w != nil && !dstFailed(w) && (windowSize == 4096 || windowSize == 32768)
 //@   modifies nothing
 //@   ensures[C12 C16 ctor-inv] result != nil && dynFresh(result) && result.w == w
 //@   ensures[C19 win] result.windowSize == windowSize
 
 //@ func (*dynCompressor).Reset
-//@   requires dynShape(w) && under != nil
+//@   requires dynShape(w) && under != nil && !dstFailed(under)
 //@   modifies *w, **w.lz77
 //@   ensures[C12 C16 fresh] dynFresh(w) && w.w == under
 //@   ensures[C19 win] w.windowSize == old(w.windowSize)
@@ -155,56 +155,63 @@ package deflate
 //@   loop 4 invariant 1 <= i && i <= 14 && x == 2 + 2*int(i) && (forall d :: 0 <= d && d < 30 ==> (d < x ==> distEntryOK(h.distanceCodes[d], uint32(d))) && (d >= x ==> preEntryOK(h.distanceCodes[d]))) && (forall y :: 0 <= y && y < 513 ==> litEntryOK(h.literalCodes[y])) && (forall y :: 0 <= y && y < 256 ==> h.literalCodes[y]>>24 <= 15)
 
 //@ func (*dynCompressor).encodeBlock
-//@   requires dynShape(c) && c.w != nil && len(c.tokens) <= 32768 && tokensOK(c.tokens) && bufOK(&c.buf)
-//@   modifies c.tokens, c.tokens[*], c.buf, c.buf.output[*], **c.hdr, **c.litGen, **c.distGen, *c.hist, extWrites
+//@   requires dynShape(c) && c.w != nil && !dstFailed(c.w) && len(c.tokens) <= 32768 && tokensOK(c.tokens) && bufOK(&c.buf)
+//@   modifies c.tokens, c.tokens[*], c.buf, c.buf.output[*], **c.hdr, **c.litGen, **c.distGen, *c.hist, extWrites, lastWriteErr, **c.w
 //@   ensures[C14 C16] dynShape(c) && same(c.w)
 //@   ensures[C10 C14 C16 block-done] result == nil ==> len(c.tokens) == 0 && bufOK(&c.buf) && c.buf.idx == 0 && (last ==> c.buf.bitLen == 0)
 //@   ensures[C12 hist-reset] result == nil ==> histZero(c.hist)
-//@   loop 1 invariant dynShape(c) && same(c.w) && 0 <= idx && idx <= len(c.tokens) && len(c.tokens) <= 40000 && tokensOK(c.tokens) && histCodesOK(c.hist) && bufOK(&c.buf) && c.buf.idx + 1024 <= len(c.buf.output) && len(c.buf.output) == 8192 && len(c.tokens) >= 1 && (idx > 0 ==> c.buf.idx == 0) && (idx == len(c.tokens) && last ==> c.buf.bitLen == 0)
+//@   ensures[C14 dst-err] result != nil ==> result == lastWriteErr && dstFailed(c.w)
+//@   ensures[C14 dst-ok] result == nil ==> !dstFailed(c.w)
+//@   loop 1 invariant dynShape(c) && same(c.w) && !dstFailed(c.w) && 0 <= idx && idx <= len(c.tokens) && len(c.tokens) <= 40000 && tokensOK(c.tokens) && histCodesOK(c.hist) && bufOK(&c.buf) && c.buf.idx + 1024 <= len(c.buf.output) && len(c.buf.output) == 8192 && len(c.tokens) >= 1 && (idx > 0 ==> c.buf.idx == 0) && (idx == len(c.tokens) && last ==> c.buf.bitLen == 0)
 
 //@ func (*dynCompressor).compressBlock
 //@   requires dynOK(w)
-//@   modifies w.processed, w.idx, w.tokens, w.tokens[*], w.buf, w.buf.output[*], **w.hdr, **w.litGen, **w.distGen, **w.lz77, extWrites
+//@   modifies w.processed, w.idx, w.tokens, w.tokens[*], w.buf, w.buf.output[*], **w.hdr, **w.litGen, **w.distGen, **w.lz77, extWrites, lastWriteErr, **w.w
 //@   ensures[C14 C16] dynShape(w) && same(w.w) && same(w.windowSize) && same(w.end)
 //@   ensures[C14 C16] err == nil && !(finalBlock && w.end == 0) ==> dynOK(w)
 //@   ensures[C10 consumed-on-flush] err == nil && flush && !(finalBlock && w.end == 0) ==> w.idx == w.end && len(w.tokens) == 0
 //@   ensures[C01 C10 final-aligned] err == nil && flush && finalBlock ==> w.buf.bitLen == 0
 //@   ensures[C09 no-flush-progress] err == nil && !flush ==> w.idx + 8 >= w.end
-//@   loop 1 invariant dynShape(w) && dynPos(w) && w.w != nil && 0 <= w.idx && w.idx <= w.end && w.end <= 2*w.windowSize+258 && len(w.tokens) < 32767 && tokensOK(w.tokens) && bufOK(&w.buf) && w.buf.idx == 0 && same(w.w) && same(w.windowSize) && same(w.end) && !(finalBlock && w.end == 0)
+//@   ensures[C14 dst-err] err != nil ==> err == lastWriteErr && dstFailed(w.w)
+//@   ensures[C14 dst-ok] err == nil ==> !dstFailed(w.w)
+//@   loop 1 invariant dynShape(w) && dynPos(w) && w.w != nil && !dstFailed(w.w) && 0 <= w.idx && w.idx <= w.end && w.end <= 2*w.windowSize+258 && len(w.tokens) < 32767 && tokensOK(w.tokens) && bufOK(&w.buf) && w.buf.idx == 0 && same(w.w) && same(w.windowSize) && same(w.end) && !(finalBlock && w.end == 0)
 
 //@ func (*dynCompressor).Compress
 //@   requires dynOK(w)
-//@   modifies **w, extWrites
+//@   modifies **w, extWrites, lastWriteErr
 //@   ensures[C14 C16] dynShape(w) && w.w == old(w.w) && w.windowSize == old(w.windowSize)
 //@   ensures[C14 C16] err == nil ==> dynOK(w)
+//@   ensures[C14 dst-err] err != nil ==> err == lastWriteErr && dstFailed(w.w)
 
 //@ func (*dynCompressor).Flush
 //@   requires dynOK(w)
-//@   modifies **w, extWrites
+//@   modifies **w, extWrites, lastWriteErr
 //@   ensures[C14 C16] dynShape(w) && w.w == old(w.w) && w.windowSize == old(w.windowSize)
 //@   ensures[C10 C16 clean] err == nil ==> dynOK(w) && w.idx == w.end && len(w.tokens) == 0 && w.buf.bitLen == 0
+//@   ensures[C14 dst-err] err != nil ==> err == lastWriteErr && dstFailed(w.w)
 
 //@ func (*dynCompressor).Close
 //@   requires dynOK(c)
-//@   modifies **c, extWrites
+//@   modifies **c, extWrites, lastWriteErr
 //@   ensures[C14 C16] dynShape(c) && c.w == old(c.w) && c.windowSize == old(c.windowSize)
 //@   ensures[C01 C16 finals] result == nil ==> c.buf.bitLen == 0 && (c.end != 0 ==> dynOK(c) && c.idx == c.end && len(c.tokens) == 0)
+//@   ensures[C14 dst-err] result != nil ==> result == lastWriteErr && dstFailed(c.w)
 
 // ---------------------------------------------------------------------------
 // huffmanOnly (level -2)
 // ---------------------------------------------------------------------------
 
 //@ pure huffShape(h *huffmanOnly) bool = len(h.buffer) == 65536 && h.max == 65536 && len(h.buf.output) == 8192 && h.hdr != nil && h.litGen != nil
-//@ pure huffOK(h *huffmanOnly) bool = huffShape(h) && h.w != nil && 0 <= h.offset && h.offset <= h.max && bufOK(&h.buf) && h.buf.idx == 0
+//@ pure huffOK(h *huffmanOnly) bool = huffShape(h) && h.w != nil && !dstFailed(h.w) && 0 <= h.offset && h.offset <= h.max && bufOK(&h.buf) && h.buf.idx == 0
 //@ pure huffFresh(h *huffmanOnly) bool = huffOK(h) && h.offset == 0 && bufZero(&h.buf)
 
 //@ func NewHuffmanOnly
-//@   requires w != nil
+//@   requires w != nil && !dstFailed(w)
 //@   modifies nothing
 //@   ensures[C12 C16 ctor-inv] result != nil && huffFresh(result) && result.w == w
 
 //@ func (*huffmanOnly).Reset
-//@   requires huffShape(h) && w != nil
+//@   requires huffShape(h) && w != nil && !dstFailed(w)
 //@   modifies h.w, h.buf, h.offset
 //@   ensures[C12 C16 fresh] huffFresh(h) && h.w == w
 
@@ -219,28 +226,32 @@ package deflate
 //@ func (*huffmanOnly).encodeBlock
 //@   trusted "not yet verified: byte histogram, code generation, header and byte encoding below this call"
 //@   requires huffOK(h)
-//@   modifies h.hist, h.buf, h.offset, h.buffer[*], **h.hdr, **h.litGen, extWrites, h.buf.output[*]
+//@   modifies h.hist, h.buf, h.offset, h.buffer[*], **h.hdr, **h.litGen, extWrites, lastWriteErr, **h.w, h.buf.output[*]
 //@   ensures huffShape(h) && h.w == old(h.w)
 //@   ensures result == nil ==> huffOK(h) && h.offset == 0
 //@   ensures result == nil && final ==> h.buf.bitLen == 0
+//@   ensures result != nil ==> result == lastWriteErr && dstFailed(h.w)
 
 //@ func (*huffmanOnly).Compress
 //@   requires huffOK(h)
-//@   modifies h.hist, h.buf, h.offset, h.buffer[*], **h.hdr, **h.litGen, extWrites, h.buf.output[*]
+//@   modifies h.hist, h.buf, h.offset, h.buffer[*], **h.hdr, **h.litGen, extWrites, lastWriteErr, **h.w, h.buf.output[*]
 //@   ensures[C14 C16] huffShape(h) && h.w == old(h.w)
 //@   ensures[C14 C16] result == nil ==> huffOK(h) && h.offset == 0
+//@   ensures[C14 dst-err] result != nil ==> result == lastWriteErr && dstFailed(h.w)
 
 //@ func (*huffmanOnly).Flush
 //@   requires huffOK(h)
-//@   modifies h.hist, h.buf, h.offset, h.buffer[*], **h.hdr, **h.litGen, extWrites, h.buf.output[*]
+//@   modifies h.hist, h.buf, h.offset, h.buffer[*], **h.hdr, **h.litGen, extWrites, lastWriteErr, **h.w, h.buf.output[*]
 //@   ensures[C14 C16] huffShape(h) && h.w == old(h.w)
 //@   ensures[C10 C16 clean] err == nil ==> huffOK(h) && h.offset == 0 && h.buf.bitLen == 0
+//@   ensures[C14 dst-err] err != nil ==> err == lastWriteErr && dstFailed(h.w)
 
 //@ func (*huffmanOnly).Close
 //@   requires huffOK(h)
-//@   modifies h.w, h.hist, h.buf, h.offset, h.buffer[*], **h.hdr, **h.litGen, extWrites, h.buf.output[*]
+//@   modifies h.w, h.hist, h.buf, h.offset, h.buffer[*], **h.hdr, **h.litGen, extWrites, lastWriteErr, **h.w, h.buf.output[*]
 //@   ensures[C14 C16] huffShape(h)
 //@   ensures[C01 C16 finals] err == nil ==> h.offset == 0 && h.buf.bitLen == 0
+//@   ensures[C14 dst-err] err != nil ==> err == lastWriteErr
 
 // ---------------------------------------------------------------------------
 // Writer
@@ -258,11 +269,12 @@ package deflate
 
 //@ func (*Writer).Write
 //@   requires wOK(w)
-//@   modifies w.err, **w.lc, *w.w, extWrites
+//@   modifies w.err, **w.lc, *w.w, extWrites, lastWriteErr
 //@   ensures[C16 inv] wOK(w)
 //@   ensures[C14 C16 sticky-in] old(w.err) != nil ==> err == old(w.err) && n == 0 && extWrites == old(extWrites) && w.err == old(w.err)
 //@   ensures[C14 sticky-in-std] old(w.err) == nil && w.w != nil && old(w.w.serr) != nil ==> err == old(w.w.serr) && extWrites == old(extWrites)
 //@   ensures[C14 sticky-out] err != nil && w.w == nil ==> w.err == err
+//@   ensures[C14 dst-err] err != nil && w.w == nil && old(w.err) == nil ==> err == lastWriteErr
 //@   ensures[C14 sticky-out-std] err != nil && old(w.err) == nil && w.w != nil && !old(w.w.sclosed) ==> w.w.serr == err
 //@   ensures[C16 closed] old(wClosed(w)) ==> err != nil && extWrites == old(extWrites)
 //@   ensures[C09 C16 empty-noop] len(data) == 0 && old(w.err) == nil && w.w == nil ==> err == nil && extWrites == old(extWrites)
@@ -273,7 +285,7 @@ package deflate
 
 //@ func (*Writer).Flush
 //@   requires wOK(w)
-//@   modifies w.err, **w.lc, *w.w, extWrites
+//@   modifies w.err, **w.lc, *w.w, extWrites, lastWriteErr
 //@   ensures[C16 inv] wOK(w)
 //@   ensures[C14 C16 sticky-in] old(w.err) != nil ==> err == old(w.err) && extWrites == old(extWrites) && w.err == old(w.err)
 //@   ensures[C14 sticky-in-std] old(w.err) == nil && w.w != nil && old(w.w.serr) != nil ==> err == old(w.w.serr) && extWrites == old(extWrites)
@@ -284,7 +296,7 @@ package deflate
 
 //@ func (*Writer).Close
 //@   requires wOK(w)
-//@   modifies w.err, **w.lc, *w.w, extWrites
+//@   modifies w.err, **w.lc, *w.w, extWrites, lastWriteErr
 //@   ensures[C16 inv] wOK(w)
 //@   ensures[C16 idempotent-close] old(wClosed(w)) ==> err == nil && extWrites == old(extWrites) && wClosed(w)
 //@   ensures[C14 C16 sticky-in] old(w.err) != nil && old(w.err) != errWriterClosed ==> err == old(w.err) && extWrites == old(extWrites) && w.err == old(w.err)
@@ -294,13 +306,13 @@ package deflate
 //@   ensures[C16 closes] err == nil ==> wClosed(w)
 
 //@ func (*Writer).Reset
-//@   requires wShape(w) && under != nil
+//@   requires wShape(w) && under != nil && !dstFailed(under)
 //@   modifies w.err, **w.lc, *w.w
 //@   ensures[C12 C16 fresh] wOK(w) && w.err == nil && !wClosed(w) && !wStuck(w) && (w.lc != nil ==> lcFresh(w.lc))
 //@   ensures[C12 same-kind] same(w.w) && same(w.lc)
 
 //@ func NewWriter
-//@   requires under != nil
+//@   requires under != nil && !dstFailed(under)
 //@   modifies nothing
 //@   ensures[C16 level-valid] (err != nil) == (level < -2 || level > 9)
 //@   ensures[C16 ctor-inv] err == nil ==> w != nil && wOK(w) && w.err == nil && !wClosed(w) && !wStuck(w) && (w.lc != nil ==> lcFresh(w.lc))
@@ -309,7 +321,7 @@ package deflate
 //@   ensures err != nil ==> w == nil
 
 //@ func NewWriterwWith4KWindow
-//@   requires under != nil
+//@   requires under != nil && !dstFailed(under)
 //@   modifies nothing
 //@   ensures[C16 ctor-inv] err == nil ==> w != nil && wOK(w) && w.err == nil && !wClosed(w) && !wStuck(w) && (w.lc != nil ==> lcFresh(w.lc))
 //@   ensures[C01 dispatch4k] err == nil ==> (typeis(w.lc, *huffmanOnly) == (level == -2)) && ((w.w != nil) == (level == 0))
@@ -317,7 +329,7 @@ package deflate
 //@   ensures err != nil ==> w == nil
 
 //@ func NewWriterDict
-//@   requires under != nil
+//@   requires under != nil && !dstFailed(under)
 //@   modifies extWrites
 //@   ensures[C16 level-valid] (err != nil) == (level < -2 || level > 9)
 //@   ensures[C16 ctor-inv] err == nil ==> w != nil && wOK(w) && w.err == nil && !wClosed(w) && !wStuck(w)
